@@ -331,6 +331,12 @@ func (f *fetchModel) tryComplete(pf *pendingFetch, fault *cf.Fault, force bool) 
 						blk.data = append(blk.data, enc...)
 						R.probe("oversize-first-batch-returned-whole")
 						first, last = b.first, b.last
+					} else if room := budget - len(blk.data); room > 0 && f.rng.Intn(2) == 0 {
+						// a broker reads a byte range of the segment: beyond the guaranteed first batch the
+						// data may still end in the middle of a batch
+						blk.data = append(blk.data, enc[:room]...)
+						R.probe("partial-trailing-batch-v3plus")
+						cl.noteFaultQuiet("partial-trailing")
 					}
 				} else {
 					// old fetch versions cut the byte stream at the budget (partial trailing message)
